@@ -439,6 +439,28 @@ def expected_rt(case, trackmap, merged):
     return exp, groups
 
 
+def gen2_expectation(case, exp, obs):
+    """The loaded performance (already compared with `exp`) is saved again: its program changes are now
+    explicit; a returned part (= track) without any program change may again gain the defaults."""
+    ppq, mpq = case["cfg"]
+    exp2 = dict(exp)
+    exp2["programs"] = [dict(prog=int(o["prog"]), ch=int(o["ch"]), track=int(o["track"]),
+                             t=M.tick_options(float(o["t"]), ppq, mpq)) for o in obs["programs"]]
+    have = set(int(o["track"]) for o in obs["programs"])
+    by_track = {}
+    for n in exp["notes"]:
+        by_track.setdefault(n["track"], []).append((n["ch"], max(n["on"])))
+    for c in exp["controls"]:
+        by_track.setdefault(c["track"], []).append((c["ch"], max(c["t"])))
+    groups2 = []
+    for tr in sorted(by_track):
+        if tr in have:
+            continue
+        first = min(t for _, t in by_track[tr])
+        groups2.append([dict(prog=0, ch=c, track=tr, t=(), tmax=first) for c in sorted(set(c for c, _ in by_track[tr]))])
+    return exp2, groups2
+
+
 def sanitize_map(res, case, perf):
     """Track numbers left by Performance(): any bijection (part, track) -> 0..k-1 is accepted."""
     mp = {}
@@ -508,7 +530,11 @@ def _load(case, arg, res, stage="rt", merge=None):
     if case.get("loader") == "lp" and isinstance(arg, str):
         from partitura.io import load_performance
 
-        ok, perf = guarded(res, "%s-load" % stage, load_performance, arg, **kw)
+        import contextlib
+        import io
+
+        with contextlib.redirect_stdout(io.StringIO()):  # it prints the swallowed loader errors
+            ok, perf = guarded(res, "%s-load" % stage, load_performance, arg, **kw)
     else:
         ok, perf = guarded(res, "%s-load" % stage, load_performance_midi, arg, **kw)
     if not ok:
@@ -596,7 +622,8 @@ def eval_rt(case):
             if perf2 is not None:
                 ok, obs2 = guarded(res, "rt2-loaded-structure", observe, perf2)
                 if ok:
-                    compare(res, "rt2", exp, obs2, clock, groups, where="save/load of a loaded performance")
+                    exp2, groups2 = gen2_expectation(case, exp, obs)
+                    compare(res, "rt2", exp2, obs2, clock, groups2, where="save/load of a loaded performance")
                     check_ids(res, "rt2", perf2)
                     res.traces += 1
     ties = sum(1 for n in exp["notes"] for k in ("on", "off") if len(n[k]) > 1)
@@ -663,6 +690,8 @@ def eval_raw(case):
 def eval_case(case):
     if case["kind"] == "rt":
         return eval_rt(case)
+    if case["kind"] == "unit":
+        return eval_unit(case)
     return eval_raw(case)
 
 
@@ -704,7 +733,7 @@ def valid_rt(case):
             for r in p.get(key, []):
                 meta_tracks.add(_etr(r[3]))
     if not used:
-        return False
+        return not meta_tracks
     if case["inp"] != "perf":
         trs = sorted(set(t for _, t in used))
         if trs != list(range(len(trs))):
@@ -804,6 +833,8 @@ def gen_two_notes(inputs, merges, patterns, block=None):
                     for swap in (0, 1):
                         for mg in merges:
                             i += 1
+                            if block is not None and block_of(["two", inp, da, db, pname, swap, mg], block[1]) != block[0]:
+                                continue
                             cfg = CONFIGS[i % 9]
                             ta = _times(cfg, pat)
                             va, vb = [(1, 127), (64, 64), (127, 1), (64, 1), (1, 64)][i % 5]
@@ -817,8 +848,6 @@ def gen_two_notes(inputs, merges, patterns, block=None):
                             io = IOS[i % 3]
                             loader = "lp" if (i % 7 == 0 and io != "object") else "lpm"
                             c = _rt([part], cfg, inp, mg, io, loader, pattern=pname)
-                            if block is not None and block_of(c, block[1]) != block[0]:
-                                continue
                             if valid_rt(c):
                                 yield c
 
@@ -831,14 +860,17 @@ def gen_three_notes(block):
         ("zero-middle", [(_a, _b), (_b, _b), (_b, _d)]),
         ("nested3", [(_a, _d), (_b, _c), (_b2, _b3)]),
     ]
-    descs = [(p, ch, tr) for p in (60, 61) for ch in (0, 15) for tr in (0, 1)]
+    descs = [(p, ch, tr) for p in (60, 61) for ch in (0, 1, 15) for tr in (0, 1)]
     i = 0
     for inp in ("perf", "ppart", "list"):
         for ds in itertools.product(descs, repeat=3):
+            skip = block is not None and block_of(["three", inp, ds], block[1]) != block[0]
             for pname, pat in pats:
                 for perm in itertools.permutations(range(3)):
                     for mg in MERGES:
                         i += 1
+                        if skip:
+                            continue
                         cfg = CONFIGS[i % 9]
                         notes = []
                         for k in range(3):
@@ -846,8 +878,6 @@ def gen_three_notes(block):
                             notes.append([ds[k][0], on, off, [1, 64, 127][(i + k) % 3], ds[k][1], ds[k][2]])
                         notes = [notes[k] for k in perm]
                         c = _rt([dict(notes=notes)], cfg, inp, mg, IOS[i % 3], "lpm", pattern=pname, gen2=False)
-                        if block is not None and block_of(c, block[1]) != block[0]:
-                            continue
                         if valid_rt(c):
                             yield c
 
@@ -888,9 +918,9 @@ def gen_events(block=None):
             for inp in ("perf", "ppart", "list"):
                 for mg in MERGES:
                     i += 1
-                    c = mk(ctl, progs, ks_sets[i % 4], ts_sets[i % 3], meta_sets[(i // 3) % 4], inp, mg, i % 2)
-                    if block is not None and block_of(c, block[1]) != block[0]:
+                    if block is not None and block_of(["events", ctl, progs, inp, mg], block[1]) != block[0]:
                         continue
+                    c = mk(ctl, progs, ks_sets[i % 4], ts_sets[i % 3], meta_sets[(i // 3) % 4], inp, mg, i % 2)
                     if valid_rt(c):
                         yield c
     # all signature/meta/program combinations (controls cycled)
@@ -907,7 +937,7 @@ def gen_events(block=None):
                                     yield c
 
 
-def gen_multi_part(max_parts, block=None):
+def gen_multi_part(max_parts, block=None, min_parts=2):
     i = 0
 
     def shape(s, k, cfg):
@@ -923,29 +953,40 @@ def gen_multi_part(max_parts, block=None):
                         controls=[[t(520 + 100 * k), 64, 100 + k, 0, 0]])
         if s == "E":
             return dict(notes=[], controls=[[t(96), 1, 10 + k, 0, 0]])
+        if s == "Z":
+            return dict(notes=[])
         raise ValueError(s)
 
-    for n in range(2, max_parts + 1):
-        for shapes in itertools.product("ABCDE", repeat=n):
+    for n in range(min_parts, max_parts + 1):
+        for shapes in itertools.product("ABCDEZ", repeat=n):
             for mask in range(2 ** n):
                 for inp in ("list", "perf"):
                     for mg in MERGES:
                         i += 1
+                        if block is not None and block_of(["multi", shapes, mask, inp, mg], block[1]) != block[0]:
+                            continue
                         cfg = CONFIGS[i % 9]
                         parts = []
                         for k, s in enumerate(shapes):
                             p = shape(s, k, cfg)
+                            if s == "Z":
+                                if mask >> k & 1:
+                                    break  # an empty part has no program variant
+                                parts.append(p)
+                                continue
                             if mask >> k & 1:
                                 src = p["notes"][0] if p["notes"] else None
                                 ch, tr = (src[4], src[5]) if src else (p["controls"][0][3], p["controls"][0][4])
                                 p["programs"] = [[0.0, 10 + k, ch, tr]]
                             if k == 0 and i % 2:
                                 tr0 = p["notes"][0][5] if p["notes"] else 0
+                                if shapes[0] == "C" and inp == "perf" and sum(1 for x in shapes if x != "Z") < 2:
+                                    tr0 = 0
                                 p["keysigs"] = [[0.0, 2, "major", tr0]]
                             parts.append(p)
-                        c = _rt(parts, cfg, inp, mg, IOS[i % 3], "lpm")
-                        if block is not None and block_of(c, block[1]) != block[0]:
+                        if len(parts) != len(shapes):
                             continue
+                        c = _rt(parts, cfg, inp, mg, IOS[i % 3], "lpm")
                         if valid_rt(c):
                             yield c
 
@@ -984,6 +1025,115 @@ def gen_ranges():
             part = dict(notes=[[(vel + ch) % 128, t(F(961, 10)), t(F(30051, 100)), vel, ch, 0]],
                         controls=[[t(F(401, 2)), (i * 3) % 128, (i * 5) % 128, ch, 0]])
             yield _rt([part], cfg, ["perf", "ppart", "list"][i % 3], (0, 0), "object", "lpm", gen2=False)
+
+
+def gen_signatures():
+    """every key signature (fifths -7..7 x major/minor/unspecified), time signatures beats 1..12 x
+    beat types 1..32, text-like and numeric meta events, on a one-note part; also a single empty part."""
+    i = 0
+    cfg0 = CONFIGS[0]
+
+    def base(cfg):
+        return dict(notes=[[60, M.tk(96, *cfg), M.tk(F(9601, 20), *cfg), 64, 0, 0]])
+
+    for fifths in range(-7, 8):
+        for mode in ("major", "minor", None):
+            for inp in ("perf", "ppart", "list"):
+                i += 1
+                cfg = CONFIGS[i % 9]
+                p = base(cfg)
+                p["keysigs"] = [[M.tk([0, 96, F(501, 2)][i % 3], *cfg), fifths, mode, 0]]
+                yield _rt([p], cfg, inp, MERGES[i % 4], IOS[i % 3], "lpm")
+    for beats in range(1, 13):
+        for bt in (1, 2, 4, 8, 16, 32):
+            i += 1
+            cfg = CONFIGS[i % 9]
+            p = base(cfg)
+            p["timesigs"] = [[M.tk([0, 96, F(501, 2)][i % 3], *cfg), beats, bt, 0]]
+            yield _rt([p], cfg, ["perf", "ppart", "list"][i % 3], MERGES[i % 4], IOS[i % 3], "lpm")
+    metas = [("text", {"text": "a b"}), ("copyright", {"text": "(c)"}), ("track_name", {"name": "Piano"}),
+             ("instrument_name", {"name": "pf"}), ("lyrics", {"text": "la"}), ("marker", {"text": "A"}),
+             ("cue_marker", {"text": "cue"}), ("device_name", {"name": "dev"}), ("midi_port", {"port": 3}),
+             ("channel_prefix", {"channel": 9})]
+    for typ, attrs in metas:
+        for ti in range(3):
+            for inp in ("perf", "ppart", "list"):
+                for mg in MERGES:
+                    i += 1
+                    cfg = CONFIGS[i % 9]
+                    p = base(cfg)
+                    p["metas"] = [[M.tk([0, 96, F(30051, 100)][ti], *cfg), typ, attrs, 0]]
+                    if i % 2:
+                        p["metas"].append([M.tk(F(961, 10), *cfg), "text", {"text": "second"}, 0])
+                    yield _rt([p], cfg, inp, mg, IOS[i % 3], "lp" if (i % 4 == 0 and IOS[i % 3] != "object") else "lpm")
+    for inp in ("perf", "ppart", "list"):
+        for mg in MERGES:
+            for io in IOS:
+                yield _rt([dict(notes=[])], cfg0, inp, mg, io, "lpm")
+
+
+def eval_unit(case):
+    """direct calls of adjust_time / midi_ticks_to_seconds / seconds_to_midi_ticks"""
+    import numpy as np
+    from partitura.io.importmidi import adjust_time
+    from partitura.utils.music import midi_ticks_to_seconds, seconds_to_midi_ticks
+
+    res = CaseResult(states=1, transitions=0, traces=1)
+    ppq = case["ppq"]
+    changes = [tuple(c) for c in case["changes"]]
+    # reference: tempo in force from each change on (later entry of a tick wins)
+    uniq = {}
+    for tick, mpq in changes:
+        uniq[tick] = mpq
+    clock = M.make_clock(sorted(uniq.items()), ppq, changes[0][1])
+    bad = 0
+    for tick in case["ticks"]:
+        ok, v = guarded(res, "unit-adjust_time", adjust_time, tick, list(changes), ppq)
+        res.transitions += 1
+        if not ok:
+            break
+        if not _close(v, clock(tick)):
+            bad += 1
+            res.fail("unit-adjust_time", expected=float(clock(tick)), observed=float(v), where="adjust_time",
+                     detail="tick=%d changes=%r ppq=%d" % (tick, changes, ppq))
+            break
+    mpq = changes[-1][1]
+    ticks = list(case["ticks"])
+    for form in ("scalar", "array"):
+        try:
+            if form == "scalar":
+                got = [midi_ticks_to_seconds(t, mpq=mpq, ppq=ppq) for t in ticks]
+                back = [seconds_to_midi_ticks(g, mpq=mpq, ppq=ppq) for g in got]
+            else:
+                got = midi_ticks_to_seconds(np.array(ticks), mpq=mpq, ppq=ppq)
+                back = list(seconds_to_midi_ticks(np.asarray(got), mpq=mpq, ppq=ppq))
+                got = list(got)
+            res.transitions += 2
+        except Exception as e:
+            res.fail("unit-ticks-seconds", kind="exception", where=innermost_partitura_frame(e), observed=exc_text(e),
+                     detail=form)
+            continue
+        exp = [M.tick_seconds(t, ppq, mpq) for t in ticks]
+        if len(got) != len(exp) or not all(_close(g, e) for g, e in zip(got, exp)):
+            res.fail("unit-ticks-seconds", expected=[float(e) for e in exp], observed=[float(g) for g in got],
+                     where="midi_ticks_to_seconds", detail="%s mpq=%d ppq=%d" % (form, mpq, ppq))
+        elif [int(b) for b in back] != ticks:
+            res.fail("unit-ticks-seconds", expected=ticks, observed=[int(b) for b in back],
+                     where="seconds_to_midi_ticks", detail="%s mpq=%d ppq=%d (ticks -> seconds -> ticks)" % (form, mpq, ppq))
+    res.outcome = "unit changes=%d %s" % (len(changes), "ok" if not res.violations else "bad")
+    res.nontrivial = len(changes) > 1
+    return res
+
+
+def gen_unit():
+    ticks = [0, 1, 49, 50, 51, 100, 150, 200, 201, 960]
+    vals = [500000, 250000, 600000, 333333]
+    for ppq in (480, 96, 1000):
+        for m0 in vals[:3]:
+            for n in range(0, 4):
+                for pos in itertools.combinations_with_replacement([0, 50, 100, 200], n):
+                    for vs in itertools.product(vals, repeat=n):
+                        yield dict(kind="unit", ppq=ppq, changes=[[0, m0]] + [[p, v] for p, v in zip(pos, vs)], ticks=ticks)
 
 
 # --- raw files
@@ -1139,6 +1289,10 @@ def spaces(tier, seed):
     sp.append(Space("rt-ranges", gen_ranges, True, "every velocity 1..127 x every channel 0..15, one note + one control"))
     sp.append(Space("rt-defaults", gen_defaults, True,
                     "omitted channel/track keys on notes, controls, programs x default ppq/mpq/merge arguments x part/list x merge on save"))
+    sp.append(Space("rt-signatures", gen_signatures, True,
+                    "one note + every key signature (fifths -7..7 x major/minor/unspecified) x 3 input kinds; every time "
+                    "signature beats 1..12 x beat type {1..32}; 10 meta event types x 3 times x 3 input kinds x 4 merge "
+                    "combinations; a single empty part x input kinds x merges x output kinds"))
     B2 = 4
     if quick:
         sp.append(Space("rt-two-notes", lambda: gen_two_notes(("perf", "ppart", "list"), MERGES, TWO_PATTERNS, (seed % B2, B2)),
@@ -1148,10 +1302,10 @@ def spaces(tier, seed):
         sp.append(Space("rt-two-notes", lambda: gen_two_notes(("perf", "ppart", "list"), MERGES, TWO_PATTERNS), True,
                         "2 notes, all ordered pairs of (pitch{60,61}, channel{0,1,15}, track{0,1}) x 10 interval patterns x "
                         "both list orders x 4 merge combinations x 3 input kinds"))
-    B3 = 16
+    B3 = 48
     sp.append(Space("rt-three-notes", lambda: gen_three_notes((seed % B3, B3) if quick else None), True,
-                    ("block %d of %d of: " % (seed % B3, B3) if quick else "") +
-                    "3 notes, all triples of (pitch{60,61}, channel{0,15}, track{0,1}) x 4 interval patterns x all 6 list "
+                    ("block %d of %d (blocks of note-descriptor triples x input kind) of: " % (seed % B3, B3) if quick else "") +
+                    "3 notes, all triples of (pitch{60,61}, channel{0,1,15}, track{0,1}) x 4 interval patterns x all 6 list "
                     "orders x 4 merge combinations x 3 input kinds"))
     BE = 4
     sp.append(Space("rt-events", lambda: gen_events((seed % BE, BE) if quick else None), True,
@@ -1161,8 +1315,8 @@ def spaces(tier, seed):
                     "time-signature x meta x program x 1|2 notes combinations; each x 3 input kinds x 4 merge combinations"))
     BM = 3
     sp.append(Space("rt-multi-part", lambda: gen_multi_part(2 if quick else 3), True,
-                    "lists / Performances of 2%s performed parts, every combination of 5 part shapes (one track, two tracks, "
-                    "second track only, equal pitch at disjoint times with pedal, controls only) x with/without program "
+                    "lists / Performances of 2%s performed parts, every combination of 6 part shapes (one track, two tracks, "
+                    "second track only, equal pitch at disjoint times with pedal, controls only, empty) x with/without program "
                     "per part x list|Performance x 4 merge combinations" % ("" if quick else "..3")))
     if quick:
         sp.append(Space("rt-multi-part-3", lambda: gen_multi_part_only3((seed % BM, BM)), True,
@@ -1181,15 +1335,18 @@ def spaces(tier, seed):
     sp.append(Space("raw-pairing", gen_raw_pairing, True,
                     "2 notes: 9 interval patterns x all ordered pairs of (channel{0,1}, pitch{60,61}) x note_off|zero-velocity "
                     "note_on for each x file order inside a tick x one|two tracks x merge x with/without a tempo change at tick 150"))
+    sp.append(Space("unit-time", gen_unit, True,
+                    "adjust_time on every tempo list [(0,m0)] + <=3 changes at non-decreasing ticks {0,50,100,200} with "
+                    "mpq in {500000,250000,600000,333333} x ppq{480,96,1000} x 10 ticks; midi_ticks_to_seconds and "
+                    "seconds_to_midi_ticks (scalar and array) on the same ticks"))
     sp.append(Space("raw-keys", gen_raw_keys, True,
                     "nested notes for all ordered pairs of (channel{0,1,2,15}, pitch{0,1,126,127}); every channel x pitch{0,60,127} x velocity{1,127}"))
     return sp
 
 
 def gen_multi_part_only3(block):
-    for c in gen_multi_part(3, block):
-        if len(c["parts"]) == 3:
-            yield c
+    for c in gen_multi_part(3, block, min_parts=3):
+        yield c
 
 
 TRIGGERS = {}
